@@ -19,6 +19,7 @@ section ("The grouping-stack typing is a guarantee") excludes them too: for ever
 hence (`emit_has_typing`) for every program the writer emits — no run ends in any fault (`emitted_no_fault`).
 -/
 import RegexVerif.Props.C10Parser
+import RegexVerif.Props.C10Chain
 import RegexVerif.Lemmas.VM
 import RegexVerif.Lemmas.Compose
 import RegexVerif.Lemmas.StackTyping
